@@ -47,13 +47,16 @@ func bigBatch(r *rand.Rand, id int, seed int64, n int) *Batch {
 		service = cast.Ed("service")
 	}
 	cw := &World{ID: id, Kind: "bigbatch", Cast: cast, Can: "store/add", Ctx: baseCtx(service)}
-	b := &Batch{ID: id, W: cw, Handlers: map[string]string{"store/add": "ok", "store/list": "fail", "upload/add": "okfx", "space/blob/add": "badout"}}
+	b := &Batch{ID: id, W: cw, Handlers: map[string]string{"store/add": "ok", "store/list": "fail", "upload/add": []string{"okfx", "okjoin", "okfxjoin"}[id%3], "space/blob/add": "badout"}}
 	// one unrelated token so that the world is never empty
 	far := 4000000000
 	cw.Specs = append(cw.Specs, &TokSpec{Name: "anchor", Issuer: cast.Ed("p0"), Audience: service, Exp: &far, Nonce: "anchor",
 		Caps: []CapSpec{{Can: "debug/echo", With: cast.Ed("p0").DID.String(), Nb: Cav{}}}})
 	for i := 0; i < n; i++ {
 		k := chainKnobs{MaxDepth: 2, Defects: []int{0, 0, 1}, Decoys: 0, RSA: false, Resolver: false, Caveats: true}
+		if id%4 == 1 {
+			k.ForcePolicy = "self" // the library's default policy throughout: such a batch can run on a server built without options
+		}
 		w, _ := chainWorldIn(r, id*1000+i, seed, k, cast, fmt.Sprintf("i%d_", i))
 		inv := w.Specs[len(w.Specs)-1]
 		inv.Nonce = fmt.Sprintf("n%d", i) // distinct invocations even when everything else coincides
@@ -135,6 +138,19 @@ func init() {
 				b.W.Specs = append(b.W.Specs, &TokSpec{Name: name, NotUCAN: true})
 				at := r.Intn(len(b.Invs) + 1)
 				b.Invs = append(b.Invs[:at], append([]string{name}, b.Invs[at:]...)...)
+			}
+			if i%4 == 1 && i%10 != 9 {
+				// a server built with NO validation options (the library's defaults), and among the invocations one issued by a
+				// principal without a key that brings no session: refused with a receipt like the others
+				ab := b.W.Cast.Absentee(fmt.Sprintf("acct%d", i), fmt.Sprintf("did:mailto:example.com:user%d", i))
+				far := 4000000000
+				b.W.Specs = append(b.W.Specs, &TokSpec{Name: "absentee_inv", Issuer: ab, Audience: b.W.Ctx.Authority, Exp: &far,
+					Caps: []CapSpec{{Can: "store/add", With: ab.DID.String(), Nb: Cav{}}}})
+				at := r.Intn(len(b.Invs) + 1)
+				b.Invs = append(b.Invs[:at], append([]string{"absentee_inv"}, b.Invs[at:]...)...)
+				if c := b.W.Ctx; c.SelfIssued && len(c.Owners) == 0 && len(c.Revoked) == 0 && len(c.Resolvable) == 0 && len(c.KeyResolver) == 0 && c.ParserKind == "ed" {
+					b.DefaultOpts = true
+				}
 			}
 			b.Perturb = r.Int63()
 			if err := b.W.Build(); err != nil {
